@@ -19,7 +19,8 @@ def main():
     ex = extract.load(prof["file"])
     for fn in fns or sorted(lib.contracts[cls]):
         con = lib.contracts[cls][fn]
-        node = ex.function(prof["cls"], fn)
+        src = getattr(con, "source", None)
+        node = extract.load(src[0]).function(src[1], fn) if src else ex.function(prof["cls"], fn)
         r = verify_function(lib, cls, fn, node, con)
         print("== %s.%s  paths=%d (normal %d, exc %d) cover=%s  %.2fs checks=%d" % (cls, fn, r.paths, r.normal_paths, r.exc_paths, r.cover, r.seconds, r.solver_checks))
         if r.unsupported:
